@@ -793,7 +793,7 @@ func c14SendJoinRedactedPowerLevels(c *mon.Ctx, r *gen.Rand, sc *simScenario) {
 	if err != nil || !bp.Redacted() || bp.EventID() != pl.EventID() {
 		return
 	}
-	for _, order := range []string{"intact-among-auth-events", "intact-among-auth-events-listed-last"} {
+	for _, order := range []string{"intact-among-auth-events", "intact-among-auth-events-listed-last", "both-copies-among-auth-events-redacted-last", "both-copies-among-auth-events-redacted-first"} {
 		var resp rawResp
 		for _, p := range state {
 			if p == pl {
@@ -807,10 +807,15 @@ func c14SendJoinRedactedPowerLevels(c *mon.Ctx, r *gen.Rand, sc *simScenario) {
 				resp.auth = append(resp.auth, p.JSON())
 			}
 		}
-		if order == "intact-among-auth-events" {
+		switch order {
+		case "intact-among-auth-events":
 			resp.auth = append(gmsl.EventJSONs{pl.JSON()}, resp.auth...)
-		} else {
+		case "intact-among-auth-events-listed-last":
 			resp.auth = append(resp.auth, pl.JSON())
+		case "both-copies-among-auth-events-redacted-last":
+			resp.auth = append(append(gmsl.EventJSONs{pl.JSON()}, resp.auth...), broken)
+		default:
+			resp.auth = append(append(gmsl.EventJSONs{broken}, resp.auth...), pl.JSON())
 		}
 		c.Case("send-join:redacted-power-levels-in-state:"+string(s.ver), map[string]any{"version": s.ver, "authoriser": via, "order": order}, func() {
 			c.Nontrivial(fmt.Sprintf("%s|sj-redacted-pl|%s|%s", s.ver, join.EventID(), order))
